@@ -795,6 +795,30 @@ func (e *Env) callExpr(n *ECall) Val {
 			return Val{S: "KV", T: kvSet(argv(0).T, str(1), str(2))}
 		case "del":
 			return Val{S: "KV", T: kvDel(argv(0).T, str(1))}
+		case "lmove", "lmint", "lburn":
+			// ledger transformers: lmove(L, from, to, denom, amt), lmint(L, addr, denom, amt), lburn(L, addr, denom, amt)
+			L := argv(0).T
+			balOf := func(l, a, d string) string { return "(select (select (l_bal " + l + ") " + a + ") " + d + ")" }
+			setBal := func(l, a, d, v string) string {
+				return "(mkL (store (l_bal " + l + ") " + a + " (store (select (l_bal " + l + ") " + a + ") " + d + " " + v + ")) (l_supply " + l + "))"
+			}
+			if id.Name == "lmove" {
+				from, to, d, amt := str(1), str(2), str(3), argv(4).T
+				l1 := fc.def("led", "Ledger", setBal(L, from, d, "(- "+balOf(L, from, d)+" "+amt+")"))
+				l2 := fc.def("led", "Ledger", setBal(l1, to, d, "(+ "+balOf(l1, to, d)+" "+amt+")"))
+				return Val{S: "Ledger", T: l2}
+			}
+			addr, d, amt := str(1), str(2), argv(3).T
+			sign := "+"
+			if id.Name == "lburn" {
+				sign = "-"
+			}
+			l1 := fc.def("led", "Ledger", setBal(L, addr, d, "("+sign+" "+balOf(L, addr, d)+" "+amt+")"))
+			l2 := "(mkL (l_bal " + l1 + ") (store (l_supply " + l1 + ") " + d + " (" + sign + " (select (l_supply " + l1 + ") " + d + ") " + amt + ")))"
+			return Val{S: "Ledger", T: fc.def("led", "Ledger", l2)}
+		case "withLedger":
+			w := argv(0)
+			return Val{S: "WorldS", T: "(mkW (w_kv " + w.T + ") " + argv(1).T + " (w_aux " + w.T + "))"}
 		case "svcid":
 			return intVal(svcID(argv(0)))
 		case "branch":
